@@ -13,7 +13,7 @@ RULE = ("greedy, round-robin, first-fit, FFD, best-fit, BFD, decreasing / two-th
         "binsize/2, binsize/3, +-1), exact-fill, all-equal and random inputs, n <= 60, list presentation; sums compared as multisets, and bins as multisets of values where the "
         "rule leaves no freedom; non-trivial = >= 2 bins and (a repeated value or a threshold/exact-fill item); distinct on (algorithm, size, value sequence)")
 ASSUMPTIONS = ["the three-class reference follows the docstring/comments of cflz_covering.py and the cited paper's class definitions"]
-FLOORS = {"quick": {"distinct_nontrivial": 20000}, "thorough": {"distinct_nontrivial": 200000}}
+FLOORS = {"quick": {"distinct_nontrivial": 20000}, "thorough": {"distinct_nontrivial": 100000}}
 NO_FREEDOM = {"roundrobin", "ff", "ffd", "decreasing", "twothirds", "threequarters"}
 REF = {"greedy": R.lpt, "roundrobin": R.roundrobin, "ff": R.first_fit, "ffd": R.first_fit_decreasing, "bf": R.best_fit, "bfd": R.best_fit_decreasing,
        "decreasing": R.nfd_cover, "twothirds": R.twothirds_cover, "threequarters": R.threequarters_cover}
